@@ -863,6 +863,36 @@ var stChangeMuts = []stMutation{
 		}
 		m.heads = prev
 	}},
+	{"changes-dup-parent-child-first", func(rng *vlib.Rand, sc *stScenario, m *stMsg) {
+		// a change citing the same parent twice (three times), delivered BEFORE that parent
+		base := sc.victim.path()[0]
+		p := stChange{id: sc.root + "-dpP", prevs: sc.victim.heads, base: base}
+		prevs := []string{p.id, p.id}
+		if rng.Chance(1, 3) {
+			prevs = append(prevs, p.id)
+		}
+		c := stChange{id: sc.root + "-dpC", prevs: prevs, base: base}
+		m.changes = append(m.changes, stRaw(c, stAclHead), stRaw(p, stAclHead))
+		m.heads = []string{c.id}
+	}},
+	{"changes-reversed-order", func(rng *vlib.Rand, sc *stScenario, m *stMsg) {
+		if len(m.changes) < 2 {
+			base := sc.victim.path()[0]
+			prev := sc.victim.heads
+			for i := 0; i < 3; i++ {
+				c := stChange{id: fmt.Sprintf("%s-rv%d", sc.root, i), prevs: prev, base: base}
+				if i == 2 {
+					c.prevs = append(c.prevs, c.prevs...)
+				}
+				m.changes = append(m.changes, stRaw(c, stAclHead))
+				prev = []string{c.id}
+			}
+			m.heads = prev
+		}
+		for i, j := 0, len(m.changes)-1; i < j; i, j = i+1, j-1 {
+			m.changes[i], m.changes[j] = m.changes[j], m.changes[i]
+		}
+	}},
 	{"changes-heads-not-in-changes", func(rng *vlib.Rand, sc *stScenario, m *stMsg) {
 		c := stChange{id: sc.root + "-hn", prevs: sc.victim.heads, base: sc.victim.path()[0]}
 		m.changes = append(m.changes, stRaw(c, stAclHead))
